@@ -263,6 +263,22 @@ def step (line : String) : String :=
         | _, _, _, _ => "bad-op"
       | _, _, _, _, _, _, _ => "bad-op"
     | _, _, _, _, _, _, _, _ => "bad-op"
+  | "pc" :: h :: bad =>
+    -- `parse compiles s` (the model of flowfilter.parse itself): `compiles code arg` is false exactly for the listed
+    -- (code:arg) pairs - the harness asks the real re.compile per (operator, argument) of the tree it rendered
+    match strOfHex h with
+    | none => "bad-op"
+    | some s =>
+      let pairs : List (Str × Str) := bad.filterMap (fun e =>
+        match e.splitOn ":" with
+        | [c, a] => match strOfHex c, strOfHex a with
+          | some c, some a => some (c, a)
+          | _, _ => none
+        | _ => none)
+      if pairs.length ≠ bad.length then "bad-op"
+      else match parse (fun c a => !(pairs.contains (c, a))) s with
+        | some t => shape t
+        | none => "reject"
   | "pr" :: ts =>
     match pT ts with
     | some (t, []) => hexOfStr (print t)
